@@ -335,8 +335,8 @@ impl Default for EmitMode {
 /// A set of directories, files and modules that rustfmt should ignore.
 #[derive(Default, Clone, Debug, PartialEq)]
 pub struct IgnoreList {
-    /// The paths specified in rustfmt.toml, each once, in the order they are written there:
-    /// like in a gitignore file, a later pattern overrides an earlier one.
+    /// The paths specified in rustfmt.toml, in the order they are written there: like in a
+    /// gitignore file, a later pattern overrides an earlier one.
     path_set: Vec<PathBuf>,
     /// A path to rustfmt.toml.
     rustfmt_toml_path: PathBuf,
@@ -389,9 +389,7 @@ impl<'de> Deserialize<'de> for IgnoreList {
             {
                 let mut path_set = Vec::new();
                 while let Some(elem) = seq.next_element()? {
-                    if !path_set.contains(&elem) {
-                        path_set.push(elem);
-                    }
+                    path_set.push(elem);
                 }
                 Ok(path_set)
             }
